@@ -82,6 +82,9 @@ def cases(tier, rng):
         typ = rng.choice([804, 805])
         yield {"k": typ, "args": [ds, nets.topo_order(ds), [int(m is not None)], m or []], "call": {"api": api}, "group": f"rand-{'strahler' if typ == 804 else 'classic'}-{api}"}
         yield {"k": 803, "args": [ds, [rng.randint(0, 4) for _ in range(n)], [rng.choice([0, 0, 2])]], "group": "rand-main"}
+        # fractional areas: quarters, so that floor() would change the ranking
+        yield {"k": 803, "args": [ds, [rng.randint(0, 9) for _ in range(n)], [rng.choice([0, 0, 2])]],
+               "call": {"api": rng.choice(["kernel", "vec", "ras"]), "scale": 4}, "group": "rand-main-fractional"}
 
 
 def impl(case):
@@ -101,6 +104,17 @@ def impl(case):
             st, v = call_impl(streams.stream_order, arr, sq, ds_array(a[4]), mask)
         return [[int(x) for x in v]] if st == "ok" else [[-2], [st]]
     if k == 803:
+        call = case.get("call") or {}
+        if call.get("scale"):
+            upa = np.array(a[1], dtype=np.float64) / call["scale"]
+            if call["api"] == "kernel":
+                st, v = call_impl(core.main_upstream, arr, upa, a[2][0] / call["scale"])
+            else:
+                if a[2][0] != 0:
+                    return [_main(ds, a[1], a[2][0])]       # the API has no upa_min argument
+                flw = (make_vector if call["api"] == "vec" else make_raster)(ds)
+                st, v = call_impl(flw.main_upstream, upa if call["api"] == "vec" else upa.reshape(1, n))
+            return [idx_list(v)] if st == "ok" else [[-2], [st]]
         st, v = call_impl(core.main_upstream, arr, np.array(a[1], dtype=np.int64), a[2][0])
         return [idx_list(v)] if st == "ok" else [[-2], [st]]
     api = case["call"]["api"]
